@@ -134,3 +134,10 @@ for _k in ("RW", "MH", "IWLS"):
 from contracts.c03 import liesel_unit  # noqa: E402
 
 liesel_unit("hier", uid="C05.proposed_state_depends_on_proposal_and_state_only", prop="C05")
+
+# "on rejection the returned state equals the input state exactly": mh_step builds the proposed state with model.update_state(proposal, state)
+# BEFORE it decides - that call must leave the input state (incl. mutable containers it holds) untouched (same harness as C03.<Interface>)
+from contracts.c03 import simple_iface_unit  # noqa: E402
+
+for _c in ("DictInterface", "DataclassInterface", "NamedTupleInterface"):
+    simple_iface_unit(_c, uid=f"C05.building_the_proposed_state_leaves_the_input_state_untouched.{_c}", prop="C05")
